@@ -591,6 +591,46 @@ func checkC10(c *Ctx) {
 		}) {
 			idCall = s
 		}
+		okFact := func(fs FactSet, ck string) bool { return fs[eqFact(ck+"#1", "nil")] }
+		if idCall == nil {
+			// the identity may be established by a private helper of the package: (id, ok) / (id, err) with the id of
+			// PeerIDFromContext on its success outcome only
+			for _, s := range callsIn(h, false, func(cc *ssa.CallCommon) bool {
+				hf := cc.StaticCallee()
+				if hf == nil || hf.Blocks == nil || funcPkgPath(hf) != funcPkgPath(h) || hf.Signature.Results().Len() != 2 {
+					return false
+				}
+				var inner ssa.CallInstruction
+				for _, s2 := range callsIn(hf, false, func(c2 *ssa.CallCommon) bool {
+					cal := c2.StaticCallee()
+					return cal != nil && cal.Name() == "PeerIDFromContext"
+				}) {
+					inner = s2
+				}
+				if inner == nil {
+					return false
+				}
+				hfl := NewFlow(p, hf)
+				ik := hfl.K.Key(inner.Value())
+				isBool := types.Identical(hf.Signature.Results().At(1).Type(), types.Typ[types.Bool])
+				for _, r := range returnsOf(hf) {
+					v1 := retValue(r, 1)
+					success := isBool && !isBoolConst(v1, false) || !isBool && !knownNonNilError(v1)
+					if !success {
+						continue
+					}
+					if hfl.K.Key(retValue(r, 0)) != ik+"#0" || !hfl.At(r)[eqFact(ik+"#1", "nil")] {
+						return false
+					}
+				}
+				return true
+			}) {
+				idCall = s
+				if types.Identical(s.Common().StaticCallee().Signature.Results().At(1).Type(), types.Typ[types.Bool]) {
+					okFact = func(fs FactSet, ck string) bool { return fs[Fact{"true", ck + "#1", ""}] }
+				}
+			}
+		}
 		if idCall == nil {
 			c.Violated("C10.3", "serviceImpl."+h.Name(), p.FuncPos(h), "the handler does not establish the peer's identity")
 			continue
@@ -611,7 +651,7 @@ func checkC10(c *Ctx) {
 						continue
 					}
 					nUse++
-					if !fl.At(in)[eqFact(ck+"#1", "nil")] {
+					if !okFact(fl.At(in), ck) {
 						bad = append(bad, p.InstrPos(in))
 					}
 				}
